@@ -13,7 +13,8 @@ VARIABLES s, n
 Init == s = <<>> /\ n = 0
 Next == n < MaxChunks /\ \E c \in Chunks : s' = s \o c /\ n' = n + 1
 Spec == Init /\ [][Next]_<<s, n>>
-M0 == VM(("a" :> VL(<<VM(("a" :> VS("x")) @@ ("" :> VS("e")) @@ ("-" :> VS("h"))), VS("y")>>)) @@ ("" :> VM("a" :> VS("z"))) @@ ("*" :> VS("w")) @@ ("b" :> VM(("a" :> VL(<<VS("p"), VS("q")>>)) @@ ("-" :> VS("h")))))      \* ("-": a key that is the attribute prefix alone, in a[0] and in b)
+M0 == VM(("a" :> VL(<<VM(("a" :> VS("x")) @@ ("" :> VS("e")) @@ ("-" :> VS("h"))), VS("y")>>)) @@ ("" :> VM("a" :> VS("z"))) @@ ("*" :> VS("w")) @@ ("b" :> VM(("a" :> VL(<<VS("p"), VS("q")>>)) @@ ("-" :> VS("h"))))
+         @@ ("9" :> VL([i \in 1..70 |-> VS("v")])))      \* (a list of 70 members under a key that is a numeral: results larger than twice the initial capacity)      \* ("-": a key that is the attribute prefix alone, in a[0] and in b)
 Total == LET r == VFPStr(M0, s) IN r.ok \in BOOLEAN      \* (evaluates every operator: no TLC evaluation error = total)
 EmitPath == Kind = "path" => PrintT(ToJson([f |-> "args", kind |-> "path", s |-> Join(s), m |-> M0,
                  ok |-> VFPStr(M0, s).ok, r |-> VFPStr(M0, s).r, wildidx |-> WildIdx(s), pair |-> PairClass(M0, s)]))
